@@ -179,6 +179,22 @@ def main():
                 and states[0] == states[1], f'{what}: two clones of one '
                 'generator gave different results or ended in different '
                 'states')
+            # a generator in the same stream state but with another past
+            # (children spawned from it earlier): only the stream counts
+            g3 = np.random.default_rng(s)
+            try:
+                g3.spawn(3)
+            except Exception:
+                g3 = None
+            if g3 is not None:
+                rng = np.random.default_rng(seed)
+                a, k = call.build(rng)
+                r3 = sanit.canon_hash(call.execute(teneva, a,
+                    dict(k, seed=g3)))
+                judged('generator-clone', r3 == outs[0], f'{what}: a '
+                    'generator in the same stream state that had spawned '
+                    'children before gives another result (hidden spawn '
+                    'counter used instead of the stream)')
             # (not judged: the statement does not promise that Generator(s)
             #  reproduces seed=s; sample_tt e.g. re-creates the generator per
             #  internal call for an integer seed but continues one stream for
